@@ -626,7 +626,7 @@ fn phase_rtr(ctx: &mut Ctx, keep_num: u64, keep_den: u64, random_n: u64) {
     let rtr: Vec<Seed> = ctx.corpus.seeds.iter().filter(|s| s.proto == Proto::Rtr).cloned().collect();
     let follow = seeds::rtr_pdu(1, 8, 0, &[]); // a valid Cache Reset following the mutated PDU
     let mut inputs: u64 = 0;
-    let mut emit = |ctx: &mut Ctx, bytes: Vec<u8>, label: &'static str, origin: &dyn Fn() -> String, bytewise: bool| {
+    let mut emit = |ctx: &mut Ctx, make: &dyn Fn() -> Vec<u8>, label: &'static str, origin: &dyn Fn() -> String, bytewise: bool| {
         let j = ctx.item;
         if !ctx.mine() || mix(j ^ 0x517) % keep_den >= keep_num {
             return;
@@ -634,6 +634,7 @@ fn phase_rtr(ctx: &mut Ctx, keep_num: u64, keep_den: u64, random_n: u64) {
         if !ctx.rep.in_budget() {
             return;
         }
+        let bytes = make();
         ctx.rep.count(label);
         let frags = ctx.frags_for(bytes.len(), bytewise);
         ctx.judge_rtr(&bytes, origin, &frags);
@@ -647,56 +648,123 @@ fn phase_rtr(ctx: &mut Ctx, keep_num: u64, keep_den: u64, random_n: u64) {
             continue;
         }
         let v = u32::from_be_bytes([s.bytes[4], s.bytes[5], s.bytes[6], s.bytes[7]]) as usize;
-        // 1. the PDU length field: alone, followed by a valid PDU, and padded up to the claimed length
-        for lv in rtr_len_values(v, s.bytes.len()) {
+        let with_len = |lv: u32| {
             let mut b = s.bytes.clone();
             b[4..8].copy_from_slice(&lv.to_be_bytes());
-            emit(ctx, b.clone(), "mut-rtr:length", &|| format!("seed {} length:={}", s.name, lv), true);
-            let mut c = b.clone();
-            c.extend_from_slice(&follow);
-            emit(ctx, c, "mut-rtr:length+next-pdu", &|| format!("seed {} length:={} + cache-reset", s.name, lv), true);
-            if (lv as usize) > b.len() && lv <= 5000 {
-                let mut d = b.clone();
-                d.resize(lv as usize, 0);
-                emit(ctx, d, "mut-rtr:length+padded", &|| format!("seed {} length:={} padded", s.name, lv), false);
+            b
+        };
+        // 1. the PDU length field: alone, followed by a valid PDU, and padded up to the claimed length
+        for lv in rtr_len_values(v, s.bytes.len()) {
+            emit(ctx, &|| with_len(lv), "mut-rtr:length", &|| format!("seed {} length:={}", s.name, lv), true);
+            emit(
+                ctx,
+                &|| {
+                    let mut c = with_len(lv);
+                    c.extend_from_slice(&follow);
+                    c
+                },
+                "mut-rtr:length+next-pdu",
+                &|| format!("seed {} length:={} + cache-reset", s.name, lv),
+                true,
+            );
+            if (lv as usize) > s.bytes.len() && lv <= 5000 {
+                emit(
+                    ctx,
+                    &|| {
+                        let mut d = with_len(lv);
+                        d.resize(lv as usize, 0);
+                        d
+                    },
+                    "mut-rtr:length+padded",
+                    &|| format!("seed {} length:={} padded", s.name, lv),
+                    false,
+                );
             }
         }
         // 2. type byte and version byte sweeps (incl. 9, 11..255), alone and followed by a valid PDU
         for t in 0..=255u8 {
-            let mut b = s.bytes.clone();
-            b[1] = t;
-            emit(ctx, b.clone(), "mut-rtr:type-sweep", &|| format!("seed {} type:={}", s.name, t), false);
-            b.extend_from_slice(&follow);
-            emit(ctx, b, "mut-rtr:type-sweep+next-pdu", &|| format!("seed {} type:={} + cache-reset", s.name, t), false);
-            let mut c = s.bytes.clone();
-            c[0] = t;
-            emit(ctx, c, "mut-rtr:version-sweep", &|| format!("seed {} version:={}", s.name, t), false);
+            let with_type = || {
+                let mut b = s.bytes.clone();
+                b[1] = t;
+                b
+            };
+            emit(ctx, &with_type, "mut-rtr:type-sweep", &|| format!("seed {} type:={}", s.name, t), false);
+            emit(
+                ctx,
+                &|| {
+                    let mut b = with_type();
+                    b.extend_from_slice(&follow);
+                    b
+                },
+                "mut-rtr:type-sweep+next-pdu",
+                &|| format!("seed {} type:={} + cache-reset", s.name, t),
+                false,
+            );
+            emit(
+                ctx,
+                &|| {
+                    let mut c = s.bytes.clone();
+                    c[0] = t;
+                    c
+                },
+                "mut-rtr:version-sweep",
+                &|| format!("seed {} version:={}", s.name, t),
+                false,
+            );
         }
         // 3. truncation at every offset, with and without the length field following
         for at in 0..s.bytes.len() {
-            emit(ctx, s.bytes[..at].to_vec(), "mut-rtr:truncate", &|| format!("seed {} truncated at {}", s.name, at), true);
+            emit(ctx, &|| s.bytes[..at].to_vec(), "mut-rtr:truncate", &|| format!("seed {} truncated at {}", s.name, at), true);
             if at >= 8 {
-                let mut b = s.bytes[..at].to_vec();
-                b[4..8].copy_from_slice(&(at as u32).to_be_bytes());
-                emit(ctx, b, "mut-rtr:truncate+fix-length", &|| format!("seed {} truncated at {} length fixed", s.name, at), true);
+                emit(
+                    ctx,
+                    &|| {
+                        let mut b = s.bytes[..at].to_vec();
+                        b[4..8].copy_from_slice(&(at as u32).to_be_bytes());
+                        b
+                    },
+                    "mut-rtr:truncate+fix-length",
+                    &|| format!("seed {} truncated at {} length fixed", s.name, at),
+                    true,
+                );
             }
         }
         // 4. boundary values in every body byte
         for off in 8..s.bytes.len().min(48) {
             for val in [0u8, 1, 0x20, 0x21, 0x7f, 0x80, 0x81, 0xff] {
-                let mut b = s.bytes.clone();
-                b[off] = val;
-                emit(ctx, b, "mut-rtr:body-byte", &|| format!("seed {} byte {}:={}", s.name, off, val), false);
+                emit(
+                    ctx,
+                    &|| {
+                        let mut b = s.bytes.clone();
+                        b[off] = val;
+                        b
+                    },
+                    "mut-rtr:body-byte",
+                    &|| format!("seed {} byte {}:={}", s.name, off, val),
+                    false,
+                );
             }
         }
         // 5. pairs of disagreeing lengths: type t with the fixed size of type u
         for u in &rtr {
             if u.bytes.len() >= 8 && u.bytes.len() != s.bytes.len() && u.bytes.len() <= 64 {
-                let mut b = s.bytes.clone();
-                b[1] = u.bytes[1];
-                emit(ctx, b.clone(), "mut-rtr:type-of-other-size", &|| format!("seed {} with type of {}", s.name, u.name), true);
-                b.extend_from_slice(&u.bytes);
-                emit(ctx, b, "mut-rtr:stream-pair", &|| format!("seed {} (type of {}) + {}", s.name, u.name, u.name), true);
+                let retyped = || {
+                    let mut b = s.bytes.clone();
+                    b[1] = u.bytes[1];
+                    b
+                };
+                emit(ctx, &retyped, "mut-rtr:type-of-other-size", &|| format!("seed {} with type of {}", s.name, u.name), true);
+                emit(
+                    ctx,
+                    &|| {
+                        let mut b = retyped();
+                        b.extend_from_slice(&u.bytes);
+                        b
+                    },
+                    "mut-rtr:stream-pair",
+                    &|| format!("seed {} (type of {}) + {}", s.name, u.name, u.name),
+                    true,
+                );
             }
         }
     }
@@ -750,7 +818,7 @@ fn phase_rtr(ctx: &mut Ctx, keep_num: u64, keep_den: u64, random_n: u64) {
 fn phase_bfd(ctx: &mut Ctx, keep_num: u64, keep_den: u64, random_n: u64) {
     let bfd: Vec<Seed> = ctx.corpus.seeds.iter().filter(|s| s.proto == Proto::Bfd).cloned().collect();
     let mut inputs = 0u64;
-    let mut emit = |ctx: &mut Ctx, bytes: Vec<u8>, label: &'static str, origin: &dyn Fn() -> String| {
+    let mut emit = |ctx: &mut Ctx, make: &dyn Fn() -> Vec<u8>, label: &'static str, origin: &dyn Fn() -> String| {
         let j = ctx.item;
         if !ctx.mine() || mix(j ^ 0xbfd) % keep_den >= keep_num {
             return;
@@ -758,6 +826,7 @@ fn phase_bfd(ctx: &mut Ctx, keep_num: u64, keep_den: u64, random_n: u64) {
         if !ctx.rep.in_budget() {
             return;
         }
+        let bytes = make();
         ctx.rep.count(label);
         ctx.judge_bfd(&bytes, origin);
         inputs += 1;
@@ -765,39 +834,75 @@ fn phase_bfd(ctx: &mut Ctx, keep_num: u64, keep_den: u64, random_n: u64) {
     for s in &bfd {
         for v in 0..=255u8 {
             for off in 0..4usize {
-                let mut b = s.bytes.clone();
-                b[off] = v;
-                emit(ctx, b.clone(), if off == 3 { "mut-bfd:length" } else { "mut-bfd:header-byte-sweep" }, &|| format!("seed {} byte {}:={}", s.name, off, v));
+                let set = || {
+                    let mut b = s.bytes.clone();
+                    b[off] = v;
+                    b
+                };
+                emit(ctx, &set, if off == 3 { "mut-bfd:length" } else { "mut-bfd:header-byte-sweep" }, &|| format!("seed {} byte {}:={}", s.name, off, v));
                 if off == 3 {
                     // the buffer really has that many bytes
-                    b.resize(v as usize, 0x41);
-                    if b.len() > 3 {
-                        b[3] = v;
-                    }
-                    emit(ctx, b, "mut-bfd:length+resized", &|| format!("seed {} length:={} resized", s.name, v));
+                    emit(
+                        ctx,
+                        &|| {
+                            let mut b = set();
+                            b.resize(v as usize, 0x41);
+                            if b.len() > 3 {
+                                b[3] = v;
+                            }
+                            b
+                        },
+                        "mut-bfd:length+resized",
+                        &|| format!("seed {} length:={} resized", s.name, v),
+                    );
                 }
             }
         }
         for at in 0..=s.bytes.len() {
-            emit(ctx, s.bytes[..at].to_vec(), "mut-bfd:truncate", &|| format!("seed {} truncated at {}", s.name, at));
-            let mut b = s.bytes[..at].to_vec();
-            if b.len() > 3 {
-                b[3] = at as u8;
-            }
-            emit(ctx, b, "mut-bfd:truncate+fix-length", &|| format!("seed {} truncated at {} length fixed", s.name, at));
+            emit(ctx, &|| s.bytes[..at].to_vec(), "mut-bfd:truncate", &|| format!("seed {} truncated at {}", s.name, at));
+            emit(
+                ctx,
+                &|| {
+                    let mut b = s.bytes[..at].to_vec();
+                    if b.len() > 3 {
+                        b[3] = at as u8;
+                    }
+                    b
+                },
+                "mut-bfd:truncate+fix-length",
+                &|| format!("seed {} truncated at {} length fixed", s.name, at),
+            );
         }
         for extra in [1usize, 2, 8, 200, 231, 232, 1000] {
-            let mut b = s.bytes.clone();
-            b.resize(s.bytes.len() + extra, 0);
-            emit(ctx, b.clone(), "mut-bfd:extend", &|| format!("seed {} + {} bytes", s.name, extra));
-            b[3] = b.len() as u8;
-            emit(ctx, b, "mut-bfd:extend+fix-length", &|| format!("seed {} + {} bytes length fixed", s.name, extra));
+            let ext = || {
+                let mut b = s.bytes.clone();
+                b.resize(s.bytes.len() + extra, 0);
+                b
+            };
+            emit(ctx, &ext, "mut-bfd:extend", &|| format!("seed {} + {} bytes", s.name, extra));
+            emit(
+                ctx,
+                &|| {
+                    let mut b = ext();
+                    b[3] = b.len() as u8;
+                    b
+                },
+                "mut-bfd:extend+fix-length",
+                &|| format!("seed {} + {} bytes length fixed", s.name, extra),
+            );
         }
         for off in 4..s.bytes.len() {
             for val in [0u8, 1, 0x7f, 0x80, 0xff] {
-                let mut b = s.bytes.clone();
-                b[off] = val;
-                emit(ctx, b, "mut-bfd:body-byte", &|| format!("seed {} byte {}:={}", s.name, off, val));
+                emit(
+                    ctx,
+                    &|| {
+                        let mut b = s.bytes.clone();
+                        b[off] = val;
+                        b
+                    },
+                    "mut-bfd:body-byte",
+                    &|| format!("seed {} byte {}:={}", s.name, off, val),
+                );
             }
         }
     }
